@@ -29,6 +29,7 @@ type SpecEnv struct {
 	Locals func(name string) *Loc
 	Pkg    *types.Package
 	Ghost  map[string]TV
+	Ghost0 map[string]TV // values of the ghost variables in the pre-state (function entry / before the call): pre(g)
 	WM0    Term
 	depth  int
 	// side conditions collected while evaluating (e.g. definedness); currently unused
@@ -968,6 +969,49 @@ func (e *SpecEnv) call(x *ECall) TV {
 			}
 		}
 		return specTV(fmt.Sprintf("(select %s %s)", m.T, k.T), "Bool")
+	case "pre":
+		// pre(g): the value of ghost variable g in the pre-state (at function entry; before the call at a call site)
+		id, ok := x.Args[0].(*EIdent)
+		if !ok {
+			efail("pre() takes a ghost variable name")
+		}
+		if e.Ghost0 != nil {
+			if v, ok := e.Ghost0[id.Name]; ok {
+				return v
+			}
+		}
+		if e.Old != nil && e.Old.Ghost0 != nil {
+			if v, ok := e.Old.Ghost0[id.Name]; ok {
+				return v
+			}
+		}
+		efail("unknown identifier %s (pre-state ghost)", id.Name)
+	case "objkey":
+		// objkey(x): identity of the object behind a pointer or an interface holding a pointer, as one integer
+		// (injective pairing of dynamic type tag and reference); the index of per-object ghost maps
+		v := e.eval(x.Args[0])
+		c.usesObjKey = true
+		if v.Sort == "Iface" {
+			return specTV(fmt.Sprintf("(okey (i.tag %s) (i.val %s))", v.T, v.T), "Int")
+		}
+		if v.Ty != nil {
+			if _, ok := c.under(v.Ty).(*types.Pointer); ok {
+				ref := v.T
+				if ref == "" && v.Loc != nil {
+					l := v.Loc
+					if (l.Kind == LocObj || l.Kind == LocBox) && len(l.Path) == 0 {
+						ref = l.Ref
+					} else if l.Kind == LocObj && len(l.Path) == 1 && !l.Path[0].IsIdx {
+						// pointer to a struct field (an embedded struct): identified by (object, field)
+						ref = fmt.Sprintf("(intr %s %d)", l.Ref, l.Path[0].Field)
+					} else {
+						efail("objkey of an interior pointer")
+					}
+				}
+				return specTV(fmt.Sprintf("(okey %s %s)", c.tagOf(v.Ty), ref), "Int")
+			}
+		}
+		efail("objkey needs a pointer or an interface value")
 	case "fresh":
 		// fresh(x): the reference did not exist at function entry
 		v := e.eval(x.Args[0])
